@@ -455,3 +455,27 @@ Theorem codecs_total :
   (forall cd bufm1 pol close_opt rd d, exists e, c_out (consume cd bufm1 pol close_opt rd d) = ORet e) /\
   (forall cd bufm1 close_opt wr src jo, exists e, p_out (produce cd bufm1 close_opt wr src jo) = ORet e).
 Proof. split; [exact consume_total|exact produce_total]. Qed.
+
+(* ---------- number slots of the JSON / XML / YAML round trip ---------- *)
+
+Lemma leaves_preserved_iff : forall want got, leaves_preserved want got = true <-> want = got.
+Proof.
+  unfold leaves_preserved.
+  induction want as [|w want IH]; intros [|g got]; cbn [list_eqb]; split; intro H; try congruence.
+  - apply andb_true_iff in H. destruct H as [Hh Ht].
+    apply bytes_eqb_eq in Hh. apply IH in Ht. now subst.
+  - inversion H; subst. apply andb_true_iff. split; [apply bytes_eqb_refl|now apply IH].
+Qed.
+
+Lemma number_slots_ok_exact : forall panicked failed want got,
+  number_slots_ok panicked failed want got = true <->
+  panicked = false /\ failed = false /\ want <> [] /\ got = want.
+Proof.
+  intros panicked failed want got. unfold number_slots_ok.
+  rewrite !andb_true_iff, !negb_true_iff, leaves_preserved_iff.
+  split.
+  - intros [[[Hp Hf] Hn] He]. subst got. repeat split; try assumption.
+    intro E. subst want. discriminate Hn.
+  - intros [Hp [Hf [Hn He]]]. subst got. repeat split; try assumption.
+    destruct want; [congruence|reflexivity].
+Qed.
